@@ -519,6 +519,89 @@ func scenarioSenderCancel(workers int, queued bool) wRes {
 	return wRes{Scenario: name, Ok: true, Sent: sent, Executed: e}
 }
 
+// Sends whose context has already ended: the pool runs the job all the same (the sender's context
+// is the job's business, not the pool's)
+func scenarioEndedCtxSend(workers int) wRes {
+	name := "endedctx"
+	bg := context.Background()
+	p := New(Options{NumWorkers: workers, SendDuration: time.Millisecond})
+	p.Run(bg)
+	defer func() {
+		done := make(chan struct{})
+		go func() { p.Stop(); close(done) }()
+		select {
+		case <-done:
+		case <-time.After(3 * time.Second):
+		}
+	}()
+	c := &counter{n: map[int]int{}}
+	sent := 24
+	for i := 0; i < sent; i++ {
+		ctx, cancel := context.WithCancel(bg)
+		cancel()
+		p.Send(ctx, c.job(i, nil))
+	}
+	if !waitFor(func() bool { e, _ := c.stats(sent); return e == sent }, 3*time.Second) {
+		e, tw := c.stats(sent)
+		return wRes{Scenario: name, Ok: false, What: fmt.Sprintf("%d jobs were handed to Send of a running pool through a context that had already ended (workers=%d): only %d were executed", sent, workers, e), Sent: sent, Executed: e, Twice: tw}
+	}
+	e, tw := c.stats(sent)
+	if tw > 0 {
+		return wRes{Scenario: name, Ok: false, What: fmt.Sprintf("%d jobs executed twice", tw), Sent: sent, Executed: e, Twice: tw}
+	}
+	return wRes{Scenario: name, Ok: true, Sent: sent, Executed: e}
+}
+
+// a job that is running when Stop begins hands a follow-up job to the pool; another goroutine
+// Sends while Stop is waiting: neither may dead-lock, both Sends return promptly
+func scenarioSendDuringStop() wRes {
+	name := "sendduringstop"
+	bg := context.Background()
+	p := New(Options{NumWorkers: 1, SendDuration: time.Millisecond})
+	p.Run(bg)
+	started, goOn := make(chan struct{}), make(chan struct{})
+	inner := make(chan time.Duration, 1)
+	p.Send(bg, Event{Caller: "chaining", Fn: func(ctx context.Context) error {
+		close(started)
+		<-goOn
+		t0 := time.Now()
+		p.Send(bg, Event{Caller: "follow-up", Fn: func(context.Context) error { return nil }})
+		inner <- time.Since(t0)
+		return nil
+	}})
+	select {
+	case <-started:
+	case <-time.After(3 * time.Second):
+		return wRes{Scenario: name, Ok: false, What: "the job never started"}
+	}
+	stopped := make(chan struct{})
+	go func() { p.Stop(); close(stopped) }()
+	time.Sleep(10 * time.Millisecond) // Stop has cancelled the context and waits for the job
+	outer := make(chan time.Duration, 1)
+	go func() {
+		t0 := time.Now()
+		p.Send(bg, Event{Caller: "outside", Fn: func(context.Context) error { return nil }})
+		outer <- time.Since(t0)
+	}()
+	var dOuter time.Duration
+	select {
+	case dOuter = <-outer:
+	case <-time.After(500 * time.Millisecond):
+		dOuter = -1
+	}
+	close(goOn)
+	select {
+	case <-stopped:
+	case <-time.After(3 * time.Second):
+		return wRes{Scenario: name, Ok: false, What: "dead-lock: Stop waits for the in-flight job, and the Send that job makes never returns"}
+	}
+	dInner := <-inner
+	if dOuter < 0 || dOuter > 250*time.Millisecond || dInner > 250*time.Millisecond {
+		return wRes{Scenario: name, Ok: false, What: fmt.Sprintf("a Send made while Stop was waiting for an in-flight job did not return promptly (outside %v, from the job %v; -1 = not within 500ms)", dOuter, dInner)}
+	}
+	return wRes{Scenario: name, Ok: true}
+}
+
 func TestVerifC16(t *testing.T) {
 	out := os.Getenv("VERIF_OUT")
 	if out == "" {
@@ -579,6 +662,22 @@ func TestVerifC16(t *testing.T) {
 					n++
 				}
 			}
+		}
+	}
+	if only == "" || only == "endedctx" {
+		for _, w := range []int{1, 3} {
+			flush(guarded("endedctx", func() wRes { return scenarioEndedCtxSend(w) }))
+			n++
+		}
+	}
+	if only == "" || only == "sendduringstop" {
+		reps := 2
+		if thorough {
+			reps = 20
+		}
+		for i := 0; i < reps; i++ {
+			flush(guarded("sendduringstop", scenarioSendDuringStop))
+			n++
 		}
 	}
 	if only == "" || only == "sendstop" {
